@@ -241,6 +241,36 @@ def deep_tree(cfg, rng, depth=10):
     return ops, sizes
 
 
+def reloc_churn(cfg, rng):
+    """Rock Ridge relocation under removal and re-creation: a chain of depth 7, relocated directories below it, all of
+    them removed (RR_MOVED disappears with the last one) and some added again, files inside; sometimes a user-made
+    /RR_MOVED exists first (it must then be used)"""
+    if not cfg.rr:
+        return None
+    ops, sizes = [], {}
+    if rng.random() < 0.4:
+        ops.append({'k': 'add_dir', 'iso': '/RR_MOVED', 'rr': 'rr_moved'})
+    p = ''
+    for d in range(7):
+        p = p + '/E%d' % d
+        ops.append({'k': 'add_dir', 'iso': p, 'rr': 'e%d' % d})
+    names = ['H', 'I', 'J'][:rng.randrange(1, 4)]
+    for n in names:
+        ops.append({'k': 'add_dir', 'iso': p + '/' + n, 'rr': n.lower()})
+    order = list(names)
+    rng.shuffle(order)
+    for n in order:
+        ops.append({'k': 'rm_dir', 'iso': p + '/' + n})
+    again = names[:rng.randrange(1, len(names) + 1)]
+    for n in again:
+        ops.append({'k': 'add_dir', 'iso': p + '/' + n, 'rr': n.lower() + '2'})
+    sizes[1] = 7
+    ops.append({'k': 'add_fp', 'blob': 1, 'size': 7, 'iso': p + '/' + again[0] + '/INSIDE.;1', 'rr': 'inside'})
+    if rng.random() < 0.5:
+        ops.append({'k': 'add_dir', 'iso': p + '/' + again[0] + '/SUB', 'rr': 'sub'})
+    return ops, sizes
+
+
 def udf_fid_cross(cfg, rng, n=60):
     """UDF: enough names in one directory to push the identifier area across a block, then removals."""
     if not cfg.udf:
@@ -609,6 +639,7 @@ RECIPES = {
     'fat_dir_churn': lambda cfg, rng: fat_dir_churn(cfg, rng),
     'multi_name_file': lambda cfg, rng: multi_name_file(cfg, rng),
     'deep_tree': lambda cfg, rng: deep_tree(cfg, rng),
+    'reloc_churn': lambda cfg, rng: reloc_churn(cfg, rng),
     'long_symlinks': lambda cfg, rng: long_symlinks(cfg, rng),
     'symlink_ce_release': lambda cfg, rng: symlink_ce_release(cfg, rng),
     'udf_fid_cross': lambda cfg, rng: udf_fid_cross(cfg, rng),
